@@ -206,4 +206,24 @@ PROPS = {
                    'outcome class with inspect.signature, checking that plain functions are only narrowed, and that the Sphinx hook returns two strings (partial).',
         level_note=NOTE + 'inspect / ast / getattr / Sphinx behaviour on real objects.',
     ),
+    'C11': dict(
+        title='postponed annotations', proj='proj_uann', oracle='c11',
+        quick=[S_('meta_post', count=30000), S_('meta_rand', count=10000), S_('annot', count=4000)],
+        thorough=[S_('meta_post', count=300000), S_('meta_rand', count=100000), S_('annot', count=60000)],
+        runtime_part='eval() of postponed annotations in real function globals (stream `annot` compiles real twins with and without the future flag, shared and per-function globals)',
+        level_text='The algebra carries the (annotation, upgraded annotation) pair of a parameter around without looking inside: that every pair of a result is literally the pair of an input parameter '
+                   '(so a postponed annotation is never re-associated with another function\'s globals) is a theorem for merge/embed/mask/forwards/partial/modifiers; twin invariance is refuted at full '
+                   'strength (finding D10: spellings are compared) and proved under faithfulness of spellings. Correspondence compares upgraded annotations of every algebra result (partial).',
+        level_note=NOTE + 'eval of annotation strings.',
+    ),
+    'C13': dict(
+        title='wrappers are call-transparent', proj='proj_full', oracle='c13',
+        quick=[S_('wrap', count=640)],
+        thorough=[S_('wrap', count=12000)],
+        runtime_part='functools.partial / descriptor call path: call transparency is definitional in any model and is validated on the real objects, not proved',
+        level_text='Introspection side as theorems: wrappers() order for any stack depth, each stack level is a forwards (hence sound by C04), the Combination signature is sound for consistently named '
+                   'functions (instance of the n-ary merge soundness theorem). Real side: decorator / wrapper_decorator stacks of depth 1-3 as function / method / staticmethod and Combinations of 1-3 '
+                   'functions are compared with the hand-written composition on all call shapes, results and TypeErrors included (partial; finding D28).',
+        level_note=NOTE + 'the real call path (functools.partial, descriptors).',
+    ),
 }
